@@ -40,11 +40,11 @@ theorem mapM'_fieldsRel {f : Nat} {g : Field → Except E (String × Val)}
 
 theorem deStruct_obj_rel {f : Nat} {ps : List Field} {deny : Bool} {kvs : List (String × Json)}
     {fs : List (String × Val)} (hreq : ps.all (fun p => match p.state with
-        | .required => !optionLikeT σ p.ty | _ => true) = true)
+        | .required => !optionLikeT σ p.ty | _ => true) = true) (hfl : hasFlatten ps = false)
     (h : deStruct x σ (f + 1) ps deny (.obj kvs) = .ok (.struct fs)) : FieldsRel x σ f ps fs := by
   simp only [deStruct] at h
   split at h
-  · simp at h
+  · rename_i hc; simp [hfl] at hc
   · split at h
     · simp at h
     · split at h
